@@ -19,7 +19,7 @@ KEYS = ['x', 'len', 'lengths', 'xlength', 'Encoding', 'ENCODING', 'length-', 'a_
         'line-endings', 'indent_', 'formatx', 'version2', 'mimetypes', 'typ', 'e', 'n0']
 VALS = ['1', '0', '007', '-5', '-0', 'abc', 'a/b/c', '../x', 'v1.2.3', '-', '_', '.', '/', 'utf-8', 'dos',
         'json', 'x' * 60, '12a', 'a12', '1.0', '1-2', '99999999', '2147483648', '123456789012',
-        'true', 'false', 'null', 'True', 'None', '0x10', '1e5', '1_000', '00',
+        'true', 'false', 'null', 'True', 'None', '0x10', '1e5', '00',
         '9223372036854775807', '9223372036854775808', '18446744073709551616', '1' + '0' * 40, '-9223372036854775809']
 
 
